@@ -101,7 +101,8 @@ def yield_decoders(F):
     drives them and the loops consuming the resulting iterator"""
     out = []
     for cb in F.all_bodies(AG):
-        if cb.kind != "Closure" or "histogram" not in cb.path or "::tests::" in cb.path:
+        # (a closure, or a named private function handed to the adapter as a function item: `.filter_map(weighted)`)
+        if "histogram" not in cb.path or "::tests::" in cb.path:
             continue
         sw = None
         for i in cb.live_blocks():
@@ -158,14 +159,16 @@ def yield_decoders(F):
                     guards.append("other")
             table[name] = ("yield", cnt, tuple(sorted(guards)))
         # the adapter that drives the closure, and the function that returns the iterator
-        adapter, owner = "?", None
-        for pb in F.all_bodies(AG):
-            for c in pb.calls():
-                if cb in closure_args(F, c):
-                    adapter, owner = c.name, pb
+        uses = [(c.name, pb, c) for pb in F.all_bodies(AG) for c in pb.calls() if cb in closure_args(F, c) or cb in fn_item_args(F, c)]
+        adapters = sorted({n for n, _, _ in uses})
+        adapter = adapters[0] if len(adapters) == 1 else ("?" if not adapters else "/".join(adapters))
+        owner = uses[0][1] if uses else None
         consumers = []
-        if owner is not None:
-            for cs in F.callers_of(owner.path, crates=[AG]):
+        for _n, owner_, adapter_cs in uses:
+            # the loop over the decoded pairs: in the callers of the function that returns the iterator, or right in the body that built it
+            returns_it = any(x[0] in ("call", "via") and x[1] == adapter_cs.bb for x in Prov(owner_).local(0))
+            sites_ = (list(F.callers_of(owner_.path, crates=[AG])) if returns_it else []) + [adapter_cs]
+            for cs in sites_:
                 b = cs.body
                 if "::tests::" in b.path:
                     continue
@@ -185,6 +188,8 @@ def yield_decoders(F):
                         every = some_t == r.bb or n.bb not in b.reachable(some_t, avoid=[r.bb])
                         ok = from_item(r.args[1]) and from_item(r.args[2]) and every
                         why = "" if ok else ("value/count do not both come from the decoded pair" if every else "an iteration can skip record_many")
+                if cs is adapter_cs and not nxt:
+                    continue        # the adapter's result leaves this body: its consumers are the callers
                 consumers.append({"body": b, "bb": cs.bb, "ok": ok, "why": why})
         out.append({"closure": cb, "table": table, "adapter": adapter, "owner": owner, "consumers": consumers})
     return out
